@@ -26,9 +26,11 @@ for tr in good:
         add("tmo=0", tr, lambda t: t["ev"][i].__setitem__("tmo", 0))
         add("tcp-flip", tr, lambda t: t["ev"][i].__setitem__("tcp", not t["ev"][i]["tcp"]))
         add("srv=9", tr, lambda t: t["ev"][i].__setitem__("srv", 9))
+        add("qclass", tr, lambda t: t["ev"][i].__setitem__("qclass", "CH"))
         add("qn", tr, lambda t: t["ev"][i].__setitem__("qn", ["other", ""]))
     j = first(tr, "end", lambda e: e["res"] == "answer")
     if j is not None:
+        add("ans-class", tr, lambda t: t["ev"][j]["ans"].__setitem__(4, "CH"))
         add("ttl+1", tr, lambda t: t["ev"][j]["ans"][2].__setitem__("ttl", t["ev"][j]["ans"][2]["ttl"] + 1))
         add("cname", tr, lambda t: t["ev"][j]["ans"][2].__setitem__("cname", ["x", ""]))
         add("created", tr, lambda t: t["ev"][j]["ans"][2].__setitem__("created", t["ev"][j]["ans"][2]["created"] - 1))
@@ -36,6 +38,7 @@ for tr in good:
     k = first(tr, "end", lambda e: len(e["cache"]) > 0)
     if k is not None:
         add("cache-key", tr, lambda t: t["ev"][k]["cache"][0].__setitem__(0, ["canon", ""]))
+        add("cache-class", tr, lambda t: t["ev"][k]["cache"][0].__setitem__(2, "CH" if t["ev"][k]["cache"][0][2] == "IN" else "IN"))
         add("cache-drop", tr, lambda t: t["ev"][k].__setitem__("cache", []))
     s = first(tr, "sleep")
     if s is not None:
